@@ -298,6 +298,57 @@ Theorem C15_hub_role_separation_swap : forall (key bkey data : Type) (O : oracle
     mac_msg (role_name Private) ts v <> mac_msg (role_name Public) ts v.
 Proof. intros. eapply hub_role_separation_swap; eauto. apply cache_inv_init. Qed.
 
+(* ---- ids made by the hub's request paths; the cache operations by themselves; the codec asked directly -------
+   hub.go writes the decode caches in exactly these places: processRegister pre-fills both new ids of a
+   hello with their own data (HRegister), removeSession deletes both ids of the session that ends
+   (HRemove: bye, removesession, a replaced virtual session, the virtual sessions of an internal client
+   that leaves, expiry), the decoders store the codec's answer (HDecode); "addsession" mints and stores a
+   virtual session and does not touch the caches (HAddSession).  HPrefill / HInvalidate are
+   setDecodedSessionId / invalidateSessionId by themselves, HCodec is hub.cookie.DecodePrivate /
+   DecodePublic (no cache).  C15_cache_sound, C15_hub_decode_history and the role separation theorems
+   above range over histories of all of these (wf_hop: a mint meets the round-trip hypotheses, a
+   pre-fill stores what the codec answers for the id). *)
+(* the hub's decoder of a role answers what the codec answers for that role -- whatever the two cache
+   states -- and so in every history, wherever both were asked about a string *)
+Theorem C15_hub_decode_is_codec : forall (key bkey data : Type) (O : oracles key bkey data) ks r h h0 id,
+  cache_inv O ks h -> snd (hub_step O ks h (HDecode r id)) = snd (hub_step O ks h0 (HCodec r id)).
+Proof. exact @hub_decode_step_is_codec. Qed.
+Theorem C15_hub_is_codec_history : forall (key bkey data : Type) (O : oracles key bkey data) ks ops n size r id v v',
+  Forall (wf_hop O ks) ops ->
+  In (HDecode r id, v) (snd (hub_run O ks (hub_init n size) ops)) ->
+  In (HCodec r id, v') (snd (hub_run O ks (hub_init n size) ops)) -> v = v'.
+Proof. intros. eapply hub_run_hub_is_codec; eauto. apply cache_inv_init. Qed.
+(* "decoding returns exactly the data that was encoded", for the ids of the request paths: both ids that
+   a hello or an addsession hands out decode -- by the codec and by the hub's decoders, anywhere in the
+   history: pre-filled, evicted, invalidated or never cached -- to the data they were minted for *)
+Theorem C15_hub_minted_ids_decode : forall (key bkey data : Type) (O : oracles key bkey data) ks ops n size o d p q,
+  Forall (wf_hop O ks) ops ->
+  In (o, HIds p q) (snd (hub_run O ks (hub_init n size) ops)) -> mints o d ->
+  decode O Private ks p = Ok d /\ decode O Public ks q = Ok d.
+Proof. intros. eapply hub_run_minted_decode; eauto. apply cache_inv_init. Qed.
+Theorem C15_hub_minted_ids_hub_decode : forall (key bkey data : Type) (O : oracles key bkey data) ks ops n size o d p q v v',
+  Forall (wf_hop O ks) ops ->
+  In (o, HIds p q) (snd (hub_run O ks (hub_init n size) ops)) -> mints o d ->
+  In (HDecode Private p, v) (snd (hub_run O ks (hub_init n size) ops)) ->
+  In (HDecode Public q, v') (snd (hub_run O ks (hub_init n size) ops)) ->
+  v = HData d /\ v' = HData d.
+Proof. intros. eapply hub_run_minted_hub_decode; eauto. apply cache_inv_init. Qed.
+(* a pre-fill with the id's own data keeps "every cache entry is what the codec answers for its key" ... *)
+Theorem C15_prefill_own_data_sound : forall (key bkey data : Type) (O : oracles key bkey data) ks r h id d,
+  cache_inv O ks h -> decode O r ks id = Ok d -> cache_inv O ks (fst (hub_step O ks h (HPrefill r id d))).
+Proof. exact @prefill_own_data_sound. Qed.
+(* ... and a pre-fill with anything else does not: the hub's decoder answers the pre-filled data, for every
+   oracle, every number (> 0) and size of caches, every non-empty string -- so it differs from the codec's
+   answer as soon as the data is not the id's own (refuted: the hypothesis of wf_hop cannot be dropped) *)
+Theorem C15_prefill_other_data_is_answered : forall (key bkey data : Type) (O : oracles key bkey data) ks r h id d',
+  id <> [] -> caches h <> [] ->
+  snd (hub_step O ks (fst (hub_step O ks h (HPrefill r id d'))) (HDecode r id)) = HData d'.
+Proof. exact @prefill_other_data_is_answered. Qed.
+Theorem C15_prefill_other_data_refuted : forall (key bkey data : Type) (O : oracles key bkey data) ks r h id d',
+  id <> [] -> caches h <> [] -> decode O r ks id <> Ok d' ->
+  snd (hub_step O ks (fst (hub_step O ks h (HPrefill r id d'))) (HDecode r id)) <> codec_answer O ks r id.
+Proof. exact @prefill_other_data_refuted. Qed.
+
 (* ---- hubs built from their configuration (NewHub) ------------------------------------------------------------
    config_keyset is the model of NewHub's reading of [sessions] hashkey / blockkey; keys are their own
    bytes.  A block key of 16, 24 or 32 bytes IS the block key of the hub (never dropped, never replaced),
@@ -394,6 +445,13 @@ Print Assumptions C15_hub_decode_refuses.
 Print Assumptions C15_hub_decode_history.
 Print Assumptions C15_hub_role_separation.
 Print Assumptions C15_hub_role_separation_swap.
+Print Assumptions C15_hub_decode_is_codec.
+Print Assumptions C15_hub_is_codec_history.
+Print Assumptions C15_hub_minted_ids_decode.
+Print Assumptions C15_hub_minted_ids_hub_decode.
+Print Assumptions C15_prefill_own_data_sound.
+Print Assumptions C15_prefill_other_data_is_answered.
+Print Assumptions C15_prefill_other_data_refuted.
 Print Assumptions C15_config_keyset_accepts.
 Print Assumptions C15_config_keyset_refuses.
 Print Assumptions C15_config_keeps_block_key.
@@ -418,6 +476,26 @@ Example C15_P_hub_roles :
                        dec Private Public WNoData; dec Public Private WNoData;
                        (XRemove 1%N, WNone); dec Private Private (WData (cd 1%N 1%N)); dec Public Private WNoData;
                        (XDecode Private (SLit "x"%string) 0%N no_answers, WNoData)] = None.
+Proof. vm_compute. repeat split; reflexivity. Qed.
+
+(* the clause on hub and codec side by side (XBoth), on ids of both request paths: both answers are the data
+   the id was made with; the hub answering the data of ANOTHER session for the private id of a virtual session
+   while the codec answers the right one (a cache entry pre-filled with foreign data) fails at that step, and so
+   does a codec answer that is not the minted data, or an answer for the other role *)
+Example C15_P_hub_request_paths :
+  let reg := (XRegister (cd 1%N 1%N) "1"%string [] "1"%string [] no_answers, WIds "PRIV"%string "PUB"%string) in
+  let add := (XAddSession (cd 2%N 2%N) "1"%string [] "1"%string [] no_answers, WIds "VPRIV"%string "VPUB"%string) in
+  let both i r which hv cv := (XBoth r (SMut i which MId) 0%N no_answers, WBoth hv cv) in
+  let p := Some (cd 1%N 1%N) in let v := Some (cd 2%N 2%N) in
+  P_hub_go 0 [] [] [] [reg; add; both 0%nat Private Private p p; both 1%nat Private Private v v; both 1%nat Public Public v v;
+                       both 1%nat Public Private None None; (XRemove 2%N, WNone); both 1%nat Private Private v v;
+                       (XPrefill Private (SMut 1 Private MId) 0%N no_answers, WNone);
+                       (XInvalidate Public (SMut 1 Public MId) 0%N, WNone); both 1%nat Public Public v v] = None /\
+  P_hub_go 0 [] [] [] [reg; add; both 1%nat Private Private p v] = Some 2%nat /\
+  P_hub_go 0 [] [] [] [reg; add; both 1%nat Private Private p p] = Some 2%nat /\
+  P_hub_go 0 [] [] [] [reg; add; both 1%nat Private Private None v] = Some 2%nat /\
+  P_hub_go 0 [] [] [] [reg; add; both 1%nat Private Private v None] = Some 2%nat /\
+  P_hub_go 0 [] [] [] [reg; add; both 1%nat Private Public v v] = Some 2%nat.
 Proof. vm_compute. repeat split; reflexivity. Qed.
 
 (* ---- the key sets of the cases of mode 3 (corr/Run_C15.v) are the model's reading of the configurations ---- *)
